@@ -14,6 +14,12 @@ src is handed to the target file
   P src i                          append_curve_item(files[src].curves[i])
   Q ix src i                       insert_curve_item(ix, files[src].curves[i])
   T key src i                      las[key] = files[src].curves[i]
+Shared-array operations (implementation side only, see ASSUMPTIONS): the array is named by a reference, ONE ndarray
+object handed over again and again:  @k  the caller's own array number k (pool_ids; the same object for the whole
+history, every file), #src.i  the object files[src][i] returns (the array curve i of file src holds)
+  V name unit value descr ref      append_curve(name, ARRAY)        W ix name unit value descr ref   insert_curve
+  Y name unit value descr ref      append_curve_item(CurveItem(.., data=ARRAY))
+  U mn ix ref                      update_curve(.., data=ARRAY)     S key ref                        las[key] = ARRAY
 Arrays are lists of abstract sample ids (the float handed to lasio is float(id)), every id followed by ",";
 2-D arrays: every column followed by ";"; names: "N" | "L" + every name followed by ","; optional arguments:
 "N" | "S" + payload.
@@ -59,6 +65,18 @@ ASSUMPTIONS = [
     "a.append_curve_item(a.curves[0])): known finding same-item-twice (one object at two positions carries one key), "
     "accepted only when the first failing clause is keys() pairwise distinct / a lookup about two positions holding one "
     "object and the history contains such a hand-over",
+    "shared-array operations: ONE ndarray object handed to several calls (the caller's array @k appended / inserted into "
+    "two LASFiles or twice into one, used as update_curve data or in las[k] = array; the array las[k] returns handed on "
+    "as in las.append_curve('X2', las['X']), also across files).  lasio keeps the caller's array object (no copy), so "
+    "such curves share one buffer.  The Coq world model has value semantics (it_data is a list of sample ids), it cannot "
+    "express that two curves hold one buffer and C14_independent holds in it by construction: these histories are judged "
+    "by the implementation-side list-model oracle only (the list entry gets the VALUE the array has at the call).  Only "
+    "API operations are generated, never a caller writing into his own array afterwards (that aliasing with the caller's "
+    "array is outside the statement: 'operations ... on one LASFile never affect another').  Checked after EVERY step of "
+    "every history (all operation kinds): every curve of every file against the list model (so no operation changes "
+    "another curve or another file through a shared buffer), and every array the harness ever handed to lasio (1-D, 2-D, "
+    "pool arrays) still holds the values it was handed over with (clause caller_array: no API operation writes into a "
+    "caller's array)",
     "arguments outside the statement's domain are not exercised: replace_curve_item / las[k] = x with something that is "
     "neither an array nor a CurveItem (replace_curve_item(ix, non-item) removes the curve and then fails its assert), "
     "non-int indices, arrays of rank > 2, pandas DataFrames (set_data_from_df)",
@@ -186,19 +204,94 @@ def cross_item(files, las, f):
     return cs[i]
 
 
+SHARED = ("V", "W", "Y", "U", "S")
+REF_AT = {"V": 5, "W": 6, "Y": 5, "U": 3, "S": 2}
+POOL = 5                            # caller's arrays @0 .. @4
+
+
+def pool_ids(k):
+    """sample ids of the caller's array @k: length 2, @2 of length 3"""
+    return [70000 + 10 * k + j for j in range(3 if k == 2 else 2)]
+
+
+def pool_array(pool, k):
+    """the ONE ndarray object that is the caller's array @k in this history (@3 holds int64)"""
+    if k not in pool:
+        a = arr1(pool_ids(k))
+        pool[k] = a.astype("i8") if k == 3 else a
+    return pool[k]
+
+
+def shared_array(files, pool, ref):
+    """the ndarray OBJECT a reference names, or None when there is no such curve"""
+    if ref[0] == "@":
+        return pool_array(pool, int(ref[1:]))
+    src, i = ref[1:].split(".")
+    cs = list(list.__iter__(files[int(src)].curves))
+    i = int(i)
+    if not -len(cs) <= i < len(cs):
+        return None
+    return files[int(src)][i]               # what las[i] returns: the array object the curve holds
+
+
+def ref_ids(lists, ref):
+    """the VALUE (sample ids) of the referenced array according to the list model"""
+    if ref[0] == "@":
+        return pool_ids(int(ref[1:]))
+    src, i = ref[1:].split(".")
+    return list(lists[int(src)][int(i)][2])
+
+
+def value_op(f, ids):
+    """the shared-array operation f as the plain operation that hands over a fresh array with the same values"""
+    c, e = f[0], enc_ids(ids)
+    if c == "V":
+        return ["a"] + f[1:5] + [e]
+    if c == "W":
+        return ["i"] + f[1:6] + [e]
+    if c == "Y":
+        return ["A"] + f[1:5] + [e]
+    if c == "U":
+        return ["u", f[1], f[2], "S" + e, "N", "N", "N"]
+    return ["s", f[1], e]
+
+
+def keep(kept, a):
+    """remember an array handed to lasio together with a private copy of what it held"""
+    if kept is not None and not any(x is a for x, _ in kept):
+        kept.append((a, a.copy()))
+    return a
+
+
+def same_array(a, b):
+    return a.shape == b.shape and a.dtype == b.dtype and bool(np.array_equal(a, b))
+
+
 def holds(las, obj):
     return any(x is obj for x in list.__iter__(las.curves))
 
 
-def apply_op(las, f, files=None):
+def apply_op(las, f, files=None, pool=None, kept=None):
     """Run one operation (code first) on a real LASFile -> 'ok' or the exception class name ('skip': a cross-file
-    operation whose source curve does not exist; nothing was called)."""
-    from lasio import HeaderItem
+    operation whose source curve does not exist; nothing was called).  pool: the caller's arrays @k of this history;
+    kept: every array handed to lasio is recorded there with a copy (Sim checks that none is ever written to)."""
+    from lasio import HeaderItem, CurveItem
     c = f[0]
     if c in CROSS:
         item = cross_item(files, las, f)
         if item is None:
             return "skip"
+    if c in SHARED:
+        shared = shared_array(files, {} if pool is None else pool, f[REF_AT[c]])
+        if shared is None:
+            return "skip"
+        keep(kept, shared)
+
+    def arr1k(ids):
+        return keep(kept, arr1(ids))
+
+    def curve_item_k(f, n):
+        return CurveItem(f[n], f[n + 1], f[n + 2], f[n + 3], arr1k(dec_ids(f[n + 4])))
     try:
         if c == "P":
             las.append_curve_item(item)
@@ -206,16 +299,31 @@ def apply_op(las, f, files=None):
             las.insert_curve_item(int(f[1]), item)
         elif c == "T":
             las[f[1]] = item
+        elif c == "V":
+            las.append_curve(f[1], shared, unit=f[2], value=f[3], descr=f[4])
+        elif c == "W":
+            las.insert_curve(int(f[1]), f[2], shared, unit=f[3], value=f[4], descr=f[5])
+        elif c == "Y":
+            las.append_curve_item(CurveItem(f[1], f[2], f[3], f[4], shared))
+        elif c == "U":
+            kw = {"data": shared}
+            if f[1] != "N":
+                kw["mnemonic"] = f[1][1:]
+            if f[2] != "N":
+                kw["ix"] = int(f[2][1:])
+            las.update_curve(**kw)
+        elif c == "S":
+            las[f[1]] = shared
         elif c == "a":
-            las.append_curve(f[1], arr1(dec_ids(f[5])), unit=f[2], value=f[3], descr=f[4])
+            las.append_curve(f[1], arr1k(dec_ids(f[5])), unit=f[2], value=f[3], descr=f[4])
         elif c == "i":
-            las.insert_curve(int(f[1]), f[2], arr1(dec_ids(f[6])), unit=f[3], value=f[4], descr=f[5])
+            las.insert_curve(int(f[1]), f[2], arr1k(dec_ids(f[6])), unit=f[3], value=f[4], descr=f[5])
         elif c == "A":
-            las.append_curve_item(curve_item(f, 1))
+            las.append_curve_item(curve_item_k(f, 1))
         elif c == "b":
             las.append_curve_item(HeaderItem("H"))
         elif c == "I":
-            las.insert_curve_item(int(f[1]), curve_item(f, 2))
+            las.insert_curve_item(int(f[1]), curve_item_k(f, 2))
         elif c == "j":
             las.insert_curve_item(int(f[1]), HeaderItem("H"))
         elif c == "d":
@@ -232,19 +340,19 @@ def apply_op(las, f, files=None):
             if f[2] != "N":
                 kw["ix"] = int(f[2][1:])
             if f[3] != "N":
-                kw["data"] = arr1(dec_ids(f[3][1:]))
+                kw["data"] = arr1k(dec_ids(f[3][1:]))
             for name, v in (("unit", f[4]), ("descr", f[5]), ("value", f[6])):
                 if v != "N":
                     kw[name] = v[1:]
             las.update_curve(**kw)
         elif c == "r":
-            las.replace_curve_item(int(f[1]), curve_item(f, 2))
+            las.replace_curve_item(int(f[1]), curve_item_k(f, 2))
         elif c == "s":
-            las[f[1]] = arr1(dec_ids(f[2]))
+            las[f[1]] = arr1k(dec_ids(f[2]))
         elif c == "t":
-            las[f[1]] = curve_item(f, 2)
+            las[f[1]] = curve_item_k(f, 2)
         elif c == "D":
-            a = arr1(dec_ids(f[1][1:])) if f[1][0] == "1" else arr2(dec_cols(f[1][1:]))
+            a = keep(kept, arr1(dec_ids(f[1][1:])) if f[1][0] == "1" else arr2(dec_cols(f[1][1:])))
             las.set_data(a, names=dec_names(f[2]), truncate=(f[3] == "T"))
         else:
             return "?"
@@ -537,6 +645,8 @@ class Sim:
         self.shared = False
         self.cross = False          # an item OBJECT of another file was handed to a file: outside the Coq world model
         self.twice = False          # an item OBJECT was handed to a file that already holds it (by identity)
+        self.pool = {}              # the caller's arrays @k (one ndarray object each for the whole history)
+        self.kept = []              # (array handed to lasio, private copy of what it held then)
         if oracle:
             for t, las in enumerate(self.files):
                 if inits[t] == "F" and len(las.curves):
@@ -587,15 +697,19 @@ class Sim:
                 if judged:
                     src, i = cross_source(f)
                     handed = (self.lists[src][i], item.mnemonic)
+        fv = f
+        if judged and f[0] in SHARED and shared_array(self.files, self.pool, f[REF_AT[f[0]]]) is not None:
+            # the list model has value semantics: the entry gets the value the array has now
+            fv = value_op(f, ref_ids(self.lists, f[REF_AT[f[0]]]))
         if judged:
             keys = las.keys()
             before = snapshot(las)
             others = [snapshot(x) if j != t else None for j, x in enumerate(self.files)]
-        r = apply_op(las, f, self.files)
+        r = apply_op(las, f, self.files, self.pool, self.kept)
         self.done.append(op)
         if not judged or r == "skip":
             return r
-        exp = list_step(self.lists[t], keys, f, handed)
+        exp = list_step(self.lists[t], keys, fv, handed)
         plain = lambda snap: [x[1:] for x in snap]      # noqa: E731  (without the object ids)
         if exp == FAIL:
             if r == "ok":
@@ -639,6 +753,14 @@ class Sim:
                 fid = explained_by(las, b)
                 self.flag(("same item twice: curves %d and %d are ONE CurveItem object (handed to the file although it "
                            "already held it): " % b[2] if fid == "same-item-twice" else "") + b[1], b[0], fid)
+        if self.oracle:
+            # no API operation writes into an array of the caller
+            for a, was in self.kept:
+                if not same_array(a, was):
+                    self.flag("the call wrote into an array of the caller: an array handed to lasio earlier as %r now holds %r "
+                              "(lasio keeps the caller's array object as the curve's data; an operation must rebind the "
+                              "curve's data, not write into that buffer)" % (was.tolist(), a.tolist()), "caller_array")
+                    break
         return r
 
     def observe(self):
@@ -655,7 +777,7 @@ def enc_init(init):
 
 def coq_ok(inits, ops):
     """can the Coq world model (value semantics) be asked about this history?"""
-    return not any(o[1] in CROSS for o in ops)
+    return not any(o[1] in CROSS or o[1] in SHARED for o in ops)
 
 
 def coq_view(inits, ops, text):
@@ -777,6 +899,21 @@ def cross_alphabet():
             (1, ("a", "A", 2)), (1, ("i", 0, "A", 2)), (1, ("u", None, -1, "u")), (1, ("s", "A", 2))]
 
 
+def shared_alphabet():
+    """(target file, template).  ONE ndarray object reaches several curves: the caller's array @0 / @1 appended to both
+    files and twice to file 0, the array las[0] returns appended again (to the same file, to the other file), used as
+    update_curve / item-assignment data; in between the operations that replace a curve's data by a fresh array of the
+    same length and dtype (update_curve(data=), las[k] = array, set_data) and deletions.  Whatever a call does to the
+    curve it addresses, every other curve, the other file and the caller's arrays keep their values."""
+    out = []
+    for tgt in (0, 1):
+        out += [(tgt, ("V", "A", "@0")), (tgt, ("u", None, 0, "d")), (tgt, ("s", "A", 2)), (tgt, ("U", None, -1, "@1"))]
+    out += [(0, ("V", "B", "@0")), (0, ("V", "A", "#0.0")), (1, ("V", "A", "#0.0")), (1, ("W", 0, "B", "@1")),
+            (0, ("Y", "A", "@1")), (1, ("U", "A", None, "#0.0")), (1, ("S", "B", "#0.-1")), (0, ("S", "A", "@1")),
+            (0, ("d", None, 0)), (1, ("u", "A", None, "du")), (0, ("D", "len", None, False, 2))]
+    return out
+
+
 class Gen:
     """Fresh sample ids and metadata tags, so that every array and item is distinguishable."""
 
@@ -812,6 +949,16 @@ def instantiate(t, target, n, g):
         return [T, "Q", str(pos_of(t[1], n)), str(t[2]), str(t[3])]
     if c == "T":                          # the key is filled in by play()/random_history (the item's session mnemonic)
         return [T, "T", t[3] if len(t) > 3 else "?", str(t[1]), str(t[2])]
+    if c == "V":
+        return [T, "V"] + item(t[1])[:4] + [t[2]]
+    if c == "W":
+        return [T, "W", str(pos_of(t[1], n))] + item(t[2])[:4] + [t[3]]
+    if c == "Y":
+        return [T, "Y"] + item(t[1])[:4] + [t[2]]
+    if c == "U":
+        return [T, "U", enc_opt(t[1]), enc_opt(None if t[2] is None else str(pos_of(t[2], n))), t[3]]
+    if c == "S":
+        return [T, "S", t[1], t[2]]
     if c == "a":
         return [T, "a"] + item(t[1], t[2])
     if c == "A":
@@ -951,8 +1098,32 @@ def random_cross(rng, sim, tgt):
     return ("T", src, i) if rng.random() < 0.85 else ("T", src, i, rng.choice(["A", "Z", "A:1"]))
 
 
-def random_history(rng, max_len, pair, oracle=False, sigs=None, init_names=("fresh", "read", "read2"), cross=0.0):
-    """-> (inits, ops, observation text, Sim).  cross: probability of a cross-file item operation per step (pairs)"""
+def random_shared(rng, sim, tgt, keys):
+    """a shared-array operation on file tgt: the array is the caller's @k or the array object a curve of either file holds"""
+    if rng.random() < 0.55:
+        ref = "@%d" % rng.randrange(POOL)
+    else:
+        src = rng.randrange(len(sim.files))
+        n = len(sim.files[src].curves)
+        ref = "#%d.%d" % (src, rng.choice([0, -1, rng.randrange(n) if n else 0]))
+    name = rng.choice(["A", "B", "", "a", "C"])
+    key = rng.choice(keys) if keys and rng.random() < 0.8 else rng.choice(["A", "B", "Z", "A:1", ""])
+    pos = rng.choice([0, 1, -1, "len", "len+2", "-len-1", "len-1"])
+    r = rng.random()
+    if r < 0.30:
+        return ("V", name, ref)
+    if r < 0.45:
+        return ("W", pos, name, ref)
+    if r < 0.52:
+        return ("Y", name, ref)
+    if r < 0.80:
+        return rng.choice([("U", None, pos, ref), ("U", key, None, ref), ("U", key, pos, ref)])
+    return ("S", key, ref)
+
+
+def random_history(rng, max_len, pair, oracle=False, sigs=None, init_names=("fresh", "read", "read2"), cross=0.0, shared=0.0):
+    """-> (inits, ops, observation text, Sim).  cross: probability of a cross-file item operation per step (pairs);
+    shared: probability of a shared-array operation per step"""
     inits = [INITS[rng.choice(init_names)] for _ in range(2 if pair else 1)]
     sim = Sim(inits, oracle)
     g = Gen()
@@ -964,6 +1135,8 @@ def random_history(rng, max_len, pair, oracle=False, sigs=None, init_names=("fre
         las = sim.files[tgt]
         if pair and cross and rng.random() < cross:
             t = fill_cross(random_cross(rng, sim, tgt), sim)
+        elif shared and rng.random() < shared:
+            t = random_shared(rng, sim, tgt, las.keys())
         else:
             t = random_template(rng, las.keys())
         o = instantiate(t, tgt, len(las.curves), g)
@@ -977,7 +1150,7 @@ def random_history(rng, max_len, pair, oracle=False, sigs=None, init_names=("fre
 
 # ---- the run --------------------------------------------------------------------------------------------------
 ALPHABETS = {"full": full_alphabet, "mid": mid_alphabet, "small": small_alphabet, "micro": micro_alphabet,
-             "tiny": tiny_alphabet, "cross": cross_alphabet}
+             "tiny": tiny_alphabet, "cross": cross_alphabet, "shared": shared_alphabet}
 SAMPLE_EVERY = 211
 
 
@@ -999,7 +1172,10 @@ def families(ctx):
             # A1: the item OBJECT of one file handed to the other, then edits that re-suffix / update it
             ("cross^4", ["cross"] * 4, ["fresh", "fresh"], "explicit"),
             ("cross^3", ["cross"] * 3, ["read", "fresh"], "explicit"),
-            ("cross^3", ["cross"] * 3, ["read_preserve", "read_lower"], "explicit")]
+            ("cross^3", ["cross"] * 3, ["read_preserve", "read_lower"], "explicit"),
+            # one ndarray object handed to several curves / files, then data replaced by arrays of the same length and dtype
+            ("shared^3", ["shared"] * 3, ["fresh", "fresh"], "explicit"),
+            ("shared^3", ["shared"] * 3, ["read", "fresh"], "explicit")]
     if ctx.thorough:
         fams += [("full^2", [F, F], ["read"], False), ("full^2", [F, F], ["fresh"], False),
                  ("mid^3", [M] * 3, ["fresh"], False), ("mid^3", [M] * 3, ["read"], False),
@@ -1011,7 +1187,9 @@ def families(ctx):
                  ("mid^2 case", [M, M], ["read_upper"], False), ("small^3 case", [S] * 3, ["read_preserve"], False),
                  ("small^3 case", [S] * 3, ["read_lower"], False),
                  ("cross^5", ["cross"] * 5, ["fresh", "fresh"], "explicit"),
-                 ("cross^4", ["cross"] * 4, ["read", "fresh"], "explicit")]
+                 ("cross^4", ["cross"] * 4, ["read", "fresh"], "explicit"),
+                 ("shared^4", ["shared"] * 4, ["fresh", "fresh"], "explicit"),
+                 ("shared^3", ["shared"] * 3, ["read_preserve", "read2"], "explicit")]
     return fams
 
 
@@ -1152,11 +1330,28 @@ def run(ctx):
             case_inits.append((inits, cv[2]))
         else:
             n_impl_only += 1
+    # a third stream: shared-array operations (one ndarray object handed to several calls) mixed into random histories
+    # on one LASFile and on pairs; judged by the list-model oracle only
+    n_rand3 = 3000 if ctx.thorough else 400
+    n_rand += n_rand3
+    for j in range(n_rand3):
+        pair = j % 2 == 0
+        inits, ops, text, sim = random_history(ctx.rng, 15, pair, oracle=True, sigs=sigs, init_names=all_inits,
+                                               cross=0.08 if pair else 0.0, shared=0.35)
+        label = "random<=15 pair, shared arrays" if pair else "random<=15 shared arrays"
+        hist[label] = hist.get(label, 0) + 1
+        res.oracle_violations += sim.violations[:2]
+        for v in sim.violations[:2]:
+            if v.get("explained"):
+                n_explained[v["explained"]] = n_explained.get(v["explained"], 0) + 1
+        n_impl_only += 1
     res.cases = len(cases) + n_impl_only
     res.extra["implementation_side_only"] = n_impl_only
     res.extra["impl_and_oracle_s"] = round(time.time() - t_start, 1)
     t_start = time.time()
-    res.oracle_violations.sort(key=lambda v: len(v["payload"]["ops"]))      # shortest history first
+    # shortest history first; a failure of a clause of the statement itself (content, independence, views) before the
+    # caller_array clause
+    res.oracle_violations.sort(key=lambda v: (v["payload"].get("check") == "caller_array", len(v["payload"]["ops"])))
     if ctx.build.model_ok:
         # the long random histories are spread evenly over the shards
         order = sorted(range(len(cases)),
@@ -1189,13 +1384,15 @@ def run(ctx):
     res.rule = ("histories of operations [append_curve, insert_curve, append/insert_curve_item (also with a non-item), "
                 "delete_curve (ix / mnemonic / both / neither), update_curve, replace_curve_item, las[k]=array, "
                 "las[k]=CurveItem, set_data; on pairs also the cross-file item operations append_curve_item / insert_curve_item / "
-                "las[k] = (a CurveItem object of the other file)] over names {A,B,'',a} (duplicates by repetition), positions "
+                "las[k] = (a CurveItem object of the other file); shared-array operations: append_curve / insert_curve / "
+                "append_curve_item(CurveItem) / update_curve / las[k] = with ONE ndarray object handed over repeatedly (the "
+                "caller's array @k, or the array las[i] returns, of either file)] over names {A,B,'',a} (duplicates by repetition), positions "
                 "{0,1,-1,len,len+2,-len-1}, keys {A,A:1,A:2,B,UNKNOWN,a,Z,''}, arrays of length 2 (one of 3), 2-D arrays "
                 "of width len/len+1/len+2/len-1/0 and with 0 rows, 1-D arrays, names None/[]/shorter/equal/longer/with "
                 "duplicates, truncate on/off.  Alphabets: full %d templates, mid %d, small %d, micro %d, tiny %d.  "
                 "EXHAUSTIVE (every history whose i-th operation is drawn from the i-th alphabet): %s.  SAMPLED: %d random "
                 "histories up to length 30 on one LASFile and on pairs (fresh and read with mnemonic_case upper / lower / "
-                "preserve), of which %d (cross-file item operations) are judged by the list-model "
+                "preserve), of which %d (cross-file item operations, shared-array operations) are judged by the list-model "
                 "oracle only.  The observation of every LASFile "
                 "is compared after every step.  distinct_nontrivial = distinct world states (original/session names, "
                 "array lengths, flag of every LASFile) reached after some step"
@@ -1259,7 +1456,7 @@ def search(ctx, res):
                 inits = [INITS[init]]
                 for v in check_history(inits, build_history(inits, list(tm))):
                     yield v
-    for _ in range(20000):
-        inits, ops, _text, sim = random_history(ctx.rng, 30, ctx.rng.random() < 0.3, oracle=True)
+    for j in range(20000):
+        inits, ops, _text, sim = random_history(ctx.rng, 30, ctx.rng.random() < 0.3, oracle=True, shared=0.3 if j % 2 else 0.0)
         for v in sim.violations:
             yield v
